@@ -77,65 +77,24 @@ func errorReturned(fn *ssa.Function, ev ssa.Value) (bool, string) {
 			}
 		}
 	}
-	for _, i := range an.Ifs(fn) {
-		cd, ok := an.Classify(i)
-		if !ok {
-			continue
-		}
-		if cd.Kind == "nil" && an.Unconv(cd.X) == ev {
-			blk := cd.EdgeWhen(false).To() // non-nil edge
-			okAll, n := true, 0
-			for _, b := range fn.Blocks {
-				if b != blk && !blk.Dominates(b) {
-					continue
-				}
-				for _, in := range b.Instrs {
-					if ret, ok := an.AsReturn(in); ok && len(ret.Results) > 0 {
-						n++
-						if an.IsNilConst(an.RetVal(ret, len(ret.Results)-1)) {
-							okAll = false
-						}
-					}
-				}
-			}
-			if n > 0 && okAll {
-				return true, "non-nil edge returns an error"
-			}
-			if n == 0 {
-				// `switch { case err == nil: … }` forms: the non-nil edge continues to further tests of the same error
-				continue
-			}
-			return false, "on the err != nil edge a return with a nil error is reachable"
+	// assume the call failed: whichever way the function goes on from there (branches on the nil-ness of the error, or
+	// of a variable that carries it, are decided), no return may report a nil error - this covers the early-return form,
+	// the switch form, an error handed on through a helper's result variable, and an error that is never looked at
+	evi, ok := ev.(ssa.Instruction)
+	if !ok {
+		return false, "the error value is not computed in this function"
+	}
+	same := func(x ssa.Value) bool { return an.Unconv(x) == ev || x == ev }
+	// the exploration starts behind the instruction that produces the error: split at the block level (the block of
+	// the call; successors only) - returns in the same block behind the call are judged as well
+	bad := an.NilReturnsAfterFailure(fn, evi.Block(), same, nil)
+	for _, in := range evi.Block().Instrs {
+		if ret, isRet := an.AsReturn(in); isRet && len(ret.Results) > 0 && an.IsNilConst(an.RetVal(ret, len(ret.Results)-1)) {
+			bad = append(bad, ret)
 		}
 	}
-	// switch-style: every path from the definition with err forced non-nil ends in a non-nil error return
-	reach := an.ReachWith(fn, nil, func(i *ssa.If) (int, bool) {
-		cd, ok := an.Classify(i)
-		if ok && cd.Kind == "nil" && an.Unconv(cd.X) == ev {
-			return cd.EdgeWhen(false).Succ, true
-		}
-		return 0, false
-	})
-	tested := false
-	for _, i := range an.Ifs(fn) {
-		if cd, ok := an.Classify(i); ok && an.Unconv(cd.X) == ev {
-			tested = true
-		}
-	}
-	if !tested {
-		return false, "the error is never tested"
-	}
-	eb := ev.(ssa.Instruction).Block()
-	for _, b := range fn.Blocks {
-		if !reach[b] || !(b == eb || eb.Dominates(b)) {
-			continue
-		}
-		for _, in := range b.Instrs {
-			if ret, ok := an.AsReturn(in); ok && len(ret.Results) > 0 && an.IsNilConst(an.RetVal(ret, len(ret.Results)-1)) {
-				// reachable nil-error return with err != nil: acceptable only behind a further classification call on err (errs.IsNotFound)
-				return false, "with err != nil a return with a nil error stays reachable"
-			}
-		}
+	if len(bad) > 0 {
+		return false, "with err != nil a return with a nil error stays reachable"
 	}
 	return true, "every exit with err != nil returns an error"
 }
